@@ -1148,6 +1148,32 @@ def extra(rng, tier):
                                        "out": "first: %s | second: %s" % (pretty(out1)[:200], pretty(out2)[:200]),
                                        "why": "second request on the same response object (first: %s): %s" % (first, why)})
     obs["reuse_runs"] = runs
+    # an event stream whose producer is slower than the ping interval: keep-alive comments are body chunks like any
+    # other - bytes on WSGI, body events with more_body on ASGI
+    import time as _time
+
+    def _slow():
+        for i in range(2):
+            _time.sleep(0.06)
+            yield {"data": str(i)}
+
+    try:
+        body = wsgi_responses.SendEventResponse(_slow(), ping_interval=0.01)(
+            {"REQUEST_METHOD": "GET"}, lambda status, headers, exc_info=None: None)
+        kinds = []
+        try:
+            for chunk in body:
+                kinds.append(type(chunk).__name__)
+        finally:
+            if hasattr(body, "close"):
+                body.close()
+        obs["wsgi_sse_chunks_with_pings"] = len(kinds)
+        if set(kinds) - {"bytes"}:
+            violations.append({"line": "wsgi sse pings", "out": ",".join(sorted(set(kinds))),
+                               "why": "a WSGI event stream with keep-alive pings yielded chunks of type %s (bytes required)"
+                                      % sorted(set(kinds) - {"bytes"})})
+    except Exception as exc:  # noqa
+        violations.append({"line": "wsgi sse pings", "out": type(exc).__name__, "why": "raised %s" % type(exc).__name__})
     return {"violations": violations, "observations": obs}
 
 
